@@ -207,13 +207,37 @@ def per_program(p):
             check_value(p, sv, col, "subclass")
 
 
+@st.composite
+def private_member_specs(draw):
+    """A structured class with an underscore-led member of a type that needs conversion (a constructor parameter for the
+    classes, a key for the TypedDict), at the root or inside a container. Whatever the library decides to do with such a
+    member - leave it out or write it - what it writes must be plain data built afresh."""
+    S = U.S
+    leaf = draw(st.sampled_from([S("Decimal"), S("UUID"), S("datetime"), {"k": "list", "sp": "list", "a": [S("Decimal")]},
+                                 {"k": "dict", "sp": "dict", "a": [S("str"), S("date")]}, {"k": "list", "sp": "list", "a": [{"k": "list", "sp": "list", "a": [S("int")]}]}]))
+    fl = draw(st.sampled_from(["dataclass", "dc_slots", "dc_frozen", "dc_kwonly", "plain", "slots", "typeddict", "typeddict_partial"]))
+    pname = draw(st.sampled_from(["_p", "_rows", "_x1", "_"]))  # (no double underscore: class bodies mangle such names)
+    fields = [{"n": "a", "t": S("int")}, {"n": pname, "t": leaf}]
+    if draw(st.booleans()):
+        fields.reverse()
+    c = {"k": "class", "name": "Priv", "mod": 0, "flavour": fl, "future": draw(st.booleans()), "fields": fields}
+    shape = draw(st.sampled_from(["class", "list", "dict", "optional"]))
+    return c if shape == "class" else {"list": {"k": "list", "sp": "list", "a": [c]}, "dict": {"k": "dict", "sp": "dict", "a": [S("str"), c]},
+                                       "optional": {"k": "optional", "sp": "Optional", "a": [c]}}[shape]
+
+
 def plan(tier, seed):
     n = 300 if tier == "quick" else 2000
     depth = 4 if tier == "quick" else 6
-    return [{"seed": seed * 1000 + k, "n": n, "depth": depth, "adversarial": k % 4 == 3} for k in range(16)]
+    shards = [{"seed": seed * 1000 + k, "n": n, "depth": depth, "adversarial": k % 4 == 3} for k in range(16)]
+    shards += [{"seed": seed * 1000 + 80 + k, "n": 150 if tier == "quick" else 2000, "private": True} for k in range(2)]
+    return shards
 
 
 def run_shard(shard, col):
+    if shard.get("private"):
+        progs.drive_programs(col, seed=shard["seed"], n=shard["n"], spec_strategy=private_member_specs(), per_program=per_program)
+        return
     progs.drive_programs(col, seed=shard["seed"], n=shard["n"],
                          spec_strategy=U.root_specs(max_depth=shard["depth"], mods=3 if shard.get("adversarial") else 2, adversarial=bool(shard.get("adversarial"))), per_program=per_program)
 
